@@ -1054,6 +1054,65 @@ def shrink(case):
             yield c
 
 
+def _self_star(v):
+    """star of the subscript by which v intervenes on itself: "m" / "p", None when not reflexive, "both" when ill-formed"""
+    own = [st for a, st in S.ivs(v) if a == S.name(v)]
+    return None if not own else (own[0] if len(own) == 1 else "both")
+
+
+def _reflexive_cause(g, e, kind):
+    """SYNTACTIC cause of the two known SIMPLIFY findings (y0 reads the tautology Y_y = y as the event Y = y):
+      prob: the event has a consistent self-intervened item (Y_{..y..}, y);
+      none: it has one, and a second item on the same vertex -- a variable that minimises to the plain Y, or another
+            consistent self-intervened item -- with the OTHER value of Y."""
+    cons = [(S.name(v), x[1]) for v, x in e if x != "n" and _self_star(v) in ("m", "p") and x[1] == _self_star(v)]
+    if not cons:
+        return False
+    if kind == "prob":
+        return True
+    for v, x in e:
+        if x == "n":
+            continue
+        st = _self_star(v)
+        plain_after_min = st is None and not S.minimise(g, v)[4]
+        if (plain_after_min or (st in ("m", "p") and x[1] == st)) and any(n == S.name(v) and s != x[1] for n, s in cons):
+            return True
+    return False
+
+
+def _explained_by_reflexive_rewrite(case, out, kind):
+    """the failure is EXACTLY the known one: replacing every consistent item (Y_{..y..}, y) of the input by (Y, y) gives
+    an event whose probability is the one SIMPLIFY's answer has (kind prob) / is 0 (kind none), in every sampled model.
+    Anything else on an event with a self-intervened variable is a new failing input."""
+    g, e = case["g"], case["e"]
+    if not F.readable_event(g, e):
+        return False
+    e2, zero = [], False
+    for v, x in e:
+        st = _self_star(v)
+        if st is None or x == "n":
+            e2.append([v, x])
+        elif st in ("m", "p") and x[1] == st:
+            e2.append([V(S.name(v)), x])
+        else:
+            zero = True          # Y_y = y' has probability 0 under either reading
+    r = None
+    if kind == "prob":
+        if out[0] != "ok" or out[1] == "none":
+            return False
+        r = [[[v[0], int(v[1]), v[2], v[3], [[int(a), s] for a, s in v[4]]], x if x == "n" else [int(x[0]), x[1]]]
+             for v, x in out[1][1]]
+        if not F.readable_event(g, r):
+            return False
+    for m, nu in _models(case, g):
+        p2 = 0 if zero else F.prob_event(m, e2, nu)
+        if kind == "none" and p2 != 0:
+            return False
+        if kind == "prob" and p2 != F.prob_event(m, r, nu):
+            return False
+    return True
+
+
 def finding_key(case, res):
     """known findings of the semantic clauses are grouped by a syntactic cause computed from the input alone;
     everything else is keyed by the full input"""
@@ -1071,9 +1130,8 @@ def finding_key(case, res):
             if c in causes:
                 return "factorisation-value:" + c
     if op == "simplify" and ("simplify changed the probability" in fail or "simplify answered None" in fail):
-        e = case["e"]
-        if any(S.name(v) in [a for a, _ in S.ivs(v)] for v, _ in e):
-            kind = "none" if "answered None" in fail else "prob"
+        kind = "none" if "answered None" in fail else "prob"
+        if _reflexive_cause(g, case["e"], kind) and _explained_by_reflexive_rewrite(case, res["out"], kind):
             return "simplify-reflexive:" + kind
     c = {k: case[k] for k in ("op", "g", "v", "e", "vs", "sets", "roots", "cond") if k in case}
     return json.dumps(c, sort_keys=True)
